@@ -22,6 +22,7 @@ def build_obs(tier, tables):
             o.flags = ["--pointer-check"]
     # a repeated title replaces the instance: the borrowed search path must survive
     extra = [o for o in parse_step_obs(["CHK_C07"], "c07path", states=[5], tier=tier, extra_all=("WITH_PATH=2",)) if "sect" in o.key or "secm" in o.key]
+    extra += [o for o in parse_step_obs(["CHK_C07"], "c07path", states=[5], tier=tier, extra_all=("WITH_PATH=3",)) if "sect" in o.key]
     for o in extra:
         o.flags = ["--pointer-check"]
     obs += extra
